@@ -46,6 +46,10 @@ Proof. split; vm_compute; reflexivity. Qed.
 Lemma gen_run_state_ok : run_state_okb gen_run_state = true.
 Proof. vm_compute. reflexivity. Qed.
 
+(* a rule keeps one compiled filter, consulted by the match handlers only; operands are consulted by the combinators only *)
+Lemma gen_filter_consults_ok : filter_consults_okb gen_filter_consults = true.
+Proof. vm_compute. reflexivity. Qed.
+
 (* the eight comparison closures and the helpers they share are, statement for statement, the audited ones from which
    eval's comparison cases are transcribed *)
 Lemma gen_cmp_closures_ok : cmp_closures_okb gen_cmp_closures = true.
